@@ -578,6 +578,9 @@ pub fn execute(case: &Case, record_seed: Option<u64>) -> Outcome {
     };
     // reader budget: std's read_to_end makes O(len/32 + k) calls at worst with 1-byte reads: len + 64.
     clock::begin(4 * len + 256, tape);
+    // The parser's internal work clock is C01's instrument; here the decoded text can be far
+    // longer than the stored bytes (a callback may push 64 bytes per malformation), so it is off.
+    saphyr_parser::verif_hooks::set_work_budget(u64::MAX);
     TRAP_LOG.with(|l| l.borrow_mut().clear());
     let decode_budget = 2 * len + 128;
     saphyr::verif_hooks::set_decode_budget(decode_budget);
